@@ -46,8 +46,20 @@ var commonAssumptions = []string{
 
 func init() {
 	register(&Def{
+		ID: "C08", Level: "exploration", MinSigs: 40,
+		Rule:        "random walks (50-150 messages) over PauseProtocol/UnpauseProtocol/PauseCrossChains/UnpauseCrossChains with valid, redundant, malformed, unauthorized variants, batches of 0..101 ids with duplicates and already-paused members; after EVERY message the four forwarder queries (every page size), the point queries and the exported genesis are compared with the model sets, and a failed message must leave the orbiter store digest unchanged; every 6 messages one probe transfer per calibrated (protocol, counterparty) on a discarded branch: executed iff neither the protocol nor the pair is paused, refused probes leave no ledger/statistics effect. Mode H walks plus a mode T walk (each message in its own signed transaction). non-trivial = every message and probe; distinct = (message kind, expectation, reason, batch size) and (destination, paused?, outcome) tuples",
+		Assumptions: append([]string{"an empty counterparty batch is treated as EITHER (the statement does not define it); the model resyncs from the queries", "counterparty ids in the walks are canonical or clearly invalid; non-canonical numeric spellings are C20's subject"}, commonAssumptions...),
+		Run:         withLab(world.Config{}, CheckC08),
+	})
+	register(&Def{
+		ID: "C09", Level: "exploration", MinSigs: 30,
+		Rule:        "random walks over PauseAction/UnpauseAction (valid ids FEE and SWAP, invalid ids, redundant, unauthorized) interleaved with forwarder pause messages; after every message the executor queries and exported genesis are compared with the model; every 4 messages probes with and without the fee action on every calibrated destination: a payload containing the fee action is executed iff the action (and destination) is not paused, a refused probe moves no balance (in particular no fee), payloads without the action follow the forwarder model only. Mode H walks plus a mode T walk. distinct = (message kind, expectation, reason) and (destination, fee?, paused?, outcome)",
+		Assumptions: commonAssumptions,
+		Run:         withLab(world.Config{}, CheckC09),
+	})
+	register(&Def{
 		ID: "C11", Level: "exploration", MinSigs: 30,
-		Rule: "metamorphic pairs: the same packet (same sequence, same bytes) is executed through the real core handler on two branches of one state - orbiter account empty vs after 1..4 real MsgSend deposits (transferred denom, other denoms, amounts 1 / equal to the transfer / random) - for PRNG-drawn routes (calibrated and hostile, incl. Hyperlane with the gas-paymaster hook), fee lists and amounts; oracle: byte-equal acknowledgement, equal ledger delta of all third accounts and supply, equal bridge events, equal statistics delta; deposit of the transferred denom ends on the dust collector, other denoms do not move. non-trivial = every pair; distinct = (route class, fee class, outcome, same-denom deposit?, number of deposits)",
+		Rule:        "metamorphic pairs: the same packet (same sequence, same bytes) is executed through the real core handler on two branches of one state - orbiter account empty vs after 1..4 real MsgSend deposits (transferred denom, other denoms, amounts 1 / equal to the transfer / random) - for PRNG-drawn routes (calibrated and hostile, incl. Hyperlane with the gas-paymaster hook), fee lists and amounts; oracle: byte-equal acknowledgement, equal ledger delta of all third accounts and supply, equal bridge events, equal statistics delta; deposit of the transferred denom ends on the dust collector, other denoms do not move. non-trivial = every pair; distinct = (route class, fee class, outcome, same-denom deposit?, number of deposits)",
 		Assumptions: commonAssumptions,
 		Run:         withLab(world.Config{}, CheckC11),
 	})
